@@ -42,12 +42,12 @@ CLAIMED = {
   "One symbol-wide exception (routing.lag reads i-lagSteps). Stdlib internals (fmt, math) are not inspected. Rejected rule: 'every output written on every path' (early returns leave zero-initialised outputs, which the property's quantifier makes correct).",
   "call-graph reachability + global/field store scan + reaching-store evaluation of time indices on go/ssa"),
  "C13": ("other",
-  "Decides the bookkeeping structure of the adaptive sub-stepping for every path through it: each accumulator weighted by the sub-step length that reaches an output executes control-equivalently with the subtraction of that sub-step from the remaining time (once per accepted sub-step, never in the trial loop) - exactly the clause the property's why_tests_cant names, and it found the rainfall/evaporation accounting defect, now fixed; the increments of the reported totals are, as symbolic monomials, terms of the volume update (R13.4), so the reported volumes are the ones that changed the volume, in the same units; final level and area are the capped table lookups of the very value returned as volume; contributions to the outflow other than the release term are conditional on volume > volumes[nLVA-1]. The min/max release bounds and numerical closure are NOT decided.",
+  "Decides the bookkeeping structure of the adaptive sub-stepping for every path through it: each accumulator weighted by the sub-step length that reaches an output executes control-equivalently with the subtraction of that sub-step from the remaining time (once per accepted sub-step, never in the trial loop) - exactly the clause the property's why_tests_cant names, and it found the rainfall/evaporation accounting defect, now fixed; the increments of the reported totals are, as symbolic monomials, terms of the volume update (R13.4), so the reported volumes are the ones that changed the volume, in the same units; final level and area are the capped table lookups of the very value returned as volume; contributions to the outflow other than the release term are conditional on volume > volumes[nLVA-1]. The min/max release bounds and numerical closure are NOT decided. R13.5: every value written to the outflow series inside the time loop is data-dependent on a function that consults both the minimum- and the maximum-release curve (followed into closures and into a struct bundling the curves), so no path through a timestep reports an outflow without the release rule.",
   "DESIGN.md section 2, C13",
   "Sub-step loop recognised as `for T > 0 { ...; T -= dt }`; versions of a source variable related through SSA phi webs; R13.4 treats non-polynomial subexpressions as opaque symbols.",
   "control-equivalence (dominance/post-dominance) of accumulations + symbolic polynomial comparison of update terms on go/ssa"),
  "C12": ("other",
-  "Per-timestep mass budgets decided by polynomial normal form, nothing executed: for LumpedConstituentRouting, ConstituentDecay, InstreamFineSediment, InstreamCoarseSediment, InstreamParticulateNutrient and StorageParticulateTrapping, on every feasible CFG path through one iteration of the kernel's time loop, (carried stored masses after the step) + (mass leaving or reported: downstream/flood-plain/decayed/trapped loads, rates weighted by the model's own timestep parameter) - (stored masses before) - (mass entering) expands to the zero polynomial after clearing denominators; phis are resolved by the path, helper results are opaque symbols and, if a path does not close that way, scalar helpers are inlined along each of their paths; only paths through the documented flush edge (step water volume compared with a constant <= MINIMUM_VOLUME) are exempt. Delegation between kernels (incl. the decay-disabled StorageDissolvedDecay the property names) hands over every mass input, the timestep, mass outputs and the stored mass position for position, and is nil-safe (found and fixed a nil-pointer panic; found a genuine leak of reachLocalMass in the fine-sediment model's lumped branch, recorded as a known finding). Amounts a helper removes from a working mass are computed from that same mass; where a mass is apportioned as M*X/D with D a sum of volumes, X is one of D's summands (so a share can never exceed the whole and the final clamp cannot hide created mass). NOT decided: non-negativity as such, clamps that bind (decided for the non-binding case), the remobilisation bound, StorageTrapAll (no timestep parameter: no budget can be stated), initial-state conventions before the loop.",
+  "Per-timestep mass budgets decided by polynomial normal form, nothing executed: for LumpedConstituentRouting, ConstituentDecay, InstreamFineSediment, InstreamCoarseSediment, InstreamParticulateNutrient and StorageParticulateTrapping, on every feasible CFG path through one iteration of the kernel's time loop, (carried stored masses after the step) + (mass leaving or reported: downstream/flood-plain/decayed/trapped loads, rates weighted by the model's own timestep parameter) - (stored masses before) - (mass entering) expands to the zero polynomial after clearing denominators; phis are resolved by the path, helper results are opaque symbols and, if a path does not close that way, scalar helpers are inlined along each of their paths; only paths through the documented flush edge (step water volume compared with a constant <= MINIMUM_VOLUME) are exempt. Delegation between kernels (incl. the decay-disabled StorageDissolvedDecay the property names) hands over every mass input, the timestep, mass outputs and the stored mass position for position, and is nil-safe (found and fixed a nil-pointer panic; found a genuine leak of reachLocalMass in the fine-sediment model's lumped branch, recorded as a known finding). Amounts a helper removes from a working mass are computed from that same mass; where a mass is apportioned as M*X/D with D a sum of volumes, X is one of D's summands (so a share can never exceed the whole and the final clamp cannot hide created mass). NOT decided: non-negativity as such, clamps that bind (decided for the non-binding case), the remobilisation bound, StorageTrapAll (no timestep parameter: no budget can be stated), initial-state conventions before the loop. R12.6: conversion-scale inference on the typed syntax tree of models/routing and models/storage — per function a linear system over the unknown scales of its float variables (named conv/units constants shift, +, −, comparison, math.Min/Max and assignment equate, numeric literals are unknowns of their own), solved exactly; a contradiction means a quantity meets itself converted (the remobilisation cap comparing tonnes with kilograms).",
   "DESIGN.md section 2, C12",
   "The table of mass terms per model (by OW-SPEC names) is part of the checker and restates the property. Clamps against constants are read as their non-constant argument. The budget is per step; closure over a period follows by induction on steps given C06 (state threading).",
   "path-sensitive symbolic polynomial normal forms with denominator clearing and helper inlining over go/ssa + interprocedural nil-dereference summaries"),
@@ -57,7 +57,7 @@ CLAIMED = {
   "Anchors are found structurally (function reaching WriteData, goroutine calling it, its channel). No model checking of the writer/main interleavings; the token argument is an inductive invariant checked by local rules only.",
   "protocol invariants by dominance/must-pass-through on go/ssa + symbolic leaf comparison of offsets + bool-correlated definite assignment"),
  "C06": ("other",
-  "Decides, for every path of each of the 17 stateful kernels and all 41 wrappers, that what is carried between timesteps comes from and goes back to the state vector: every value carried around the time loop (SSA header phi or buffer allocated outside the loop and read before written) that influences outputs is initialised from a STATE argument and reaches a returned state; a state the kernel evolves is not returned unevolved; wrappers read state k into kernel argument nInputs+k and write the kernel's k-th state result back to position k (or extract→kernel→pack in matching order); the two custom pack/extract pairs store the contents of every component and read it at the same symbolic offset; where a kernel hands the run to another catalogued kernel, the caller state passed as the callee's state k is the state the callee's evolved state k is returned as; in kernels with one time loop no value computed inside the loop that influences outputs or states is derived from the length of the series (run-length independence); successive counting loops that rewrite a slice-typed state buffer start at 0 or exactly where the previous one ended, as linear forms (found and fixed the lag buffer refill for calls shorter than the lag). This found six genuine defects (three repaired, two recorded as known findings needing new state variables). Numerical equality of split and unsplit runs is NOT decided.",
+  "Decides, for every path of each of the 17 stateful kernels and all 41 wrappers, that what is carried between timesteps comes from and goes back to the state vector: every value carried around the time loop (SSA header phi or buffer allocated outside the loop and read before written) that influences outputs is initialised from a STATE argument and reaches a returned state; a state the kernel evolves is not returned unevolved; wrappers read state k into kernel argument nInputs+k and write the kernel's k-th state result back to position k (or extract→kernel→pack in matching order); the two custom pack/extract pairs store the contents of every component and read it at the same symbolic offset; where a kernel hands the run to another catalogued kernel, the caller state passed as the callee's state k is the state the callee's evolved state k is returned as; in kernels with one time loop no value computed inside the loop that influences outputs or states is derived from the length of the series (run-length independence); successive counting loops that rewrite a slice-typed state buffer start at 0 or exactly where the previous one ended, as linear forms (found and fixed the lag buffer refill for calls shorter than the lag). This found six genuine defects (three repaired, two recorded as known findings needing new state variables). Numerical equality of split and unsplit runs is NOT decided. R06.7 (tool/c06refill.go) judges the once-per-call rewrites of slice-typed state buffers as a chain of events — counting loops, copy calls (windows of equal length), calls of helpers handed the buffer directly or inside a wrapping struct, translated through the call's arguments — each starting at 0 or where the previous one ended, and a shift within the buffer keeping the tail of the range rebuilt; writes through helpers, copy and wrapping structs make a vector carried memory (R06.1), and a working copy of a state buffer has to be handed back (R06.2).",
   "DESIGN.md section 2, C06",
   "One symbol-wide exception (storageRouting:qi, solver warm start, within the property's stated tolerance). Time loops are recognised as outermost loops bounded by a series length; control influence is approximated by branch regions.",
   "loop-carried-value (SSA phi / memory) provenance analysis + symbolic layout comparison of pack/extract"),
@@ -72,7 +72,7 @@ CLAIMED = {
   "Dims/OriginalDims are untyped; literals and lengths are polymorphic; a wrong constant factor would pass. In-bounds-ness of loc/dims/step is assumed.",
   "dimensional (unit) abstract interpretation over go/ssa + storage-sharing and addressing-path checks"),
  "C02": ("other",
-  "Structural clauses of the bulk operations, per element type: every range access Impl[a:b] and every write through x.Unroll() that relies on aliasing is dominated by Contiguous()==true on that object (or x is a fresh root array); the contiguity predicate branches on Step, Dims and OriginalDims/Offset; Go-backed Unroll returns a sub-slice of the storage when contiguous — and a gathered copy only on a path where Contiguous() is known false — and Reshape builds on it; ReshapeFast fails exactly under !Contiguous(), Reshape succeeds exactly on the equal edge of the element-count comparison; fresh strides are laid over own storage only when contiguous; Argmax returns an index of its parameter (index-space typing; found and fixed an off-by-one); a row-major position within a view is decoded with Offsets(dims) of the very dims it is reduced modulo (not with the array's stored strides); the whole-array helpers write their destination on every path (no value-dependent shortcut return). Equality of fast and general paths as values is NOT decided.",
+  "Structural clauses of the bulk operations, per element type: every range access Impl[a:b] and every write through x.Unroll() that relies on aliasing is dominated by Contiguous()==true on that object (or x is a fresh root array); the contiguity predicate branches on Step, Dims and OriginalDims/Offset; Go-backed Unroll returns a sub-slice of the storage when contiguous — and a gathered copy only on a path where Contiguous() is known false — and Reshape builds on it; ReshapeFast fails exactly under !Contiguous(), Reshape succeeds exactly on the equal edge of the element-count comparison; fresh strides are laid over own storage only when contiguous; Argmax returns an index of its parameter (index-space typing; found and fixed an off-by-one); a row-major position within a view is decoded with Offsets(dims) of the very dims it is reduced modulo (not with the array's stored strides); the whole-array helpers write their destination on every path (no value-dependent shortcut return). Equality of fast and general paths as values is NOT decided. Added in later rounds: every window cut from the backing store has an upper end (Impl[a:] runs past the view), and a fast path that pairs the flat storage of two arrays position by position is admitted only where the destination is cut to the source's shape, a guard compares the shapes, or the function's general path pairs the same arrays by one index vector (R02.11).",
   "DESIGN.md section 2, C02",
   "Exactness of Contiguous' arithmetic and of Increment/Offsets/IDivMod/Product is not decided. C-backed types are judged under C03.",
   "guard-edge dominance, alias tracking of Unroll results and index-space typing on go/ssa"),
@@ -82,12 +82,12 @@ CLAIMED = {
   "No length information exists for *[1<<30]T, so buffer bounds cannot be decided; in-bounds loc is assumed. cgo-generated code is not modelled.",
   "sibling rule-set agreement + who-may-convert rule for unsafe.Pointer + dominator-based call-protocol check"),
  "C04": ("other",
-  "Structural necessary conditions of cell independence, decided on each of the 41 generated wrappers and their kernels: inputs and parameter views are never written (interprocedural effect summaries incl. Unroll aliases and closure captures); every write to states/outputs goes through a view restricted to the goroutine's own cell (pos[CELL]==i, size[CELL]==1, vectors allocated per goroutine); every broadcast `i % n` uses the extent of the array actually indexed; table parameters are cut to the cell's own length; kernel arguments are the spec's inputs/params/outputs in order; no slice aliasing a shared array is grown with append; no package-level storage is written on the per-cell path (interprocedural, through helpers and slices of global arrays); the shared state array of models with a custom init function is allocated with the maximum of the cells' state-vector lengths as row width (found and fixed: rows were sized from cell 0, so N-cell GR4J/Lag runs with growing X4/timeLag panicked). Equality of values with single-cell runs is NOT established directly.",
+  "Structural necessary conditions of cell independence, decided on each of the 41 generated wrappers and their kernels: inputs and parameter views are never written (interprocedural effect summaries incl. Unroll aliases and closure captures); every write to states/outputs goes through a view restricted to the goroutine's own cell (pos[CELL]==i, size[CELL]==1, vectors allocated per goroutine); every broadcast `i % n` uses the extent of the array actually indexed; table parameters are cut to the cell's own length; kernel arguments are the spec's inputs/params/outputs in order; no slice aliasing a shared array is grown with append; no package-level storage is written on the per-cell path (interprocedural, through helpers and slices of global arrays); the shared state array of models with a custom init function is allocated with the maximum of the cells' state-vector lengths as row width (found and fixed: rows were sized from cell 0, so N-cell GR4J/Lag runs with growing X4/timeLag panicked). Equality of values with single-cell runs is NOT established directly. Also decided: every cell is run once with its own index — the per-cell body's index parameter is the counter of the loop that starts the goroutines (from 0, step 1, up to the cell extent of the states/outputs array), through the goroutine's argument and through a spawning helper if Run delegates the fan-out (R04.9); handing the address of a package-level variable to a callee counts as writing it.",
   "DESIGN.md section 2, C04",
   "ND view methods (Slice/Reshape/MustReshape/ReshapeFast) are taken to share storage (checked separately by C01/C02). Row count of pack-function results proven only for constant extents. ApplyParameters row-block arithmetic not decided.",
   "effect summaries + reaching-store evaluation of index vectors on go/ssa, per generated wrapper"),
  "C05": ("other",
-  "Goroutine confinement and counted join for all 43 go statements in the module: captured variables are never assigned in the goroutine nor by the spawner once it may run; shared index vectors are never written (also not through Apply's loc); shared arrays are written only through per-cell views; every goroutine path signals exactly once and the spawner's returns are dominated by a receive loop with the same count; no function reachable from a cell goroutine writes package-level storage; nothing reachable from a cell goroutine writes through Run's inputs or a parameter view (shared by the cells whenever they repeat cyclically); no read method of any array type writes through its receiver (elements, stride/shape metadata or a scratch field). No schedule is explored; the claim is absence of shared mutable locations, from which schedule independence follows.",
+  "Goroutine confinement and counted join for all 43 go statements in the module: captured variables are never assigned in the goroutine nor by the spawner once it may run; shared index vectors are never written (also not through Apply's loc); shared arrays are written only through per-cell views; every goroutine path signals exactly once and the spawner's returns are dominated by a receive loop with the same count; no function reachable from a cell goroutine writes package-level storage; nothing reachable from a cell goroutine writes through Run's inputs or a parameter view (shared by the cells whenever they repeat cyclically); no read method of any array type writes through its receiver (elements, stride/shape metadata or a scratch field). No schedule is explored; the claim is absence of shared mutable locations, from which schedule independence follows. Also decided: each cell goroutine is given its own cell index (R05.9, as R04.9 without the bound clause); a go statement in a spawning helper shared by the wrappers is judged once, the variables captured by each wrapper's per-cell body at the call; f(&global) — e.g. atomic.AddInt32 — counts as a write of the global.",
   "DESIGN.md section 2, C05",
   "Does not decide the writer-vs-main access to modelReference.Generations (token argument, see C07). Pointer arguments of distinct goroutines assumed distinct. No happens-before reasoning beyond the done-channel join.",
   "escape/confinement analysis of go closures + must-pass-through send/receive join check on go/ssa CFGs"),
@@ -97,7 +97,7 @@ CLAIMED = {
   "hdf5 is opaque (cannot be compiled here): its API is classified reader/writer/neutral by a table in tool/c08.go. Recursive read-locking is treated conservatively. Outside package io the unexported lock cannot be held: such calls are accepted only where statically no goroutine started by module code can exist.",
   "interprocedural lock-state dataflow (must-hold) over go/ssa + call-graph reachability + dominance of guard edges"),
  "C16": ("other",
-  "Decided by normal forms, not by running anything: (R16.3) for the partition, scaling, conversion, mask and concentration kernels the value written to each output on every write site is expanded to a polynomial (and each such output is written on every path through a timestep) over canonical symbols (input k at the loop's time index, parameter k) and compared with the property's identities: the two outputs of the fixed/variable/rating-curve partitions sum identically to the input; scale/delivery-ratio/depth-to-rate/concentration models are exactly the stated monomial with the exact unit factor (mm->m, mg/L->kg/m3); totals equal the sum of their parts; gate/pass-through masks write the input (x factor) exactly on the positive side of their driver test and zero otherwise. (R16.1) every A_TO_B conversion constant equals magnitude(A)/magnitude(B) exactly (rational arithmetic by the type checker) and inverse pairs multiply to 1; (R16.2) constants are used as factors only. (R16.4) for USLE fine sediment, bank erosion, particulate nutrient generation, the two gully models and the demand partition, 15 relations written with OW-SPEC names (totals = sum of parts, delivered load = generated load x delivery ratio, generated fine : (fine + coarse) = the model's fine fraction, dry-weather loads linear with the mg/L->kg/m3 factor, extraction + outflow = input) hold identically on every feasible CFG path through a timestep, with phis resolved by the path and scalar helpers inlined where needed. (R16.5) for 29 driven outputs of those models, on every feasible path that is possible with the driver (flow, sediment supply) at zero the written polynomial vanishes identically, with the gully export function passed as a function value resolved and inlined. NOT decided: non-negativity as such, the gully fine/coarse split (computed behind a function value), clamps that bind.",
+  "Decided by normal forms, not by running anything: (R16.3) for the partition, scaling, conversion, mask and concentration kernels the value written to each output on every write site is expanded to a polynomial (and each such output is written on every path through a timestep) over canonical symbols (input k at the loop's time index, parameter k) and compared with the property's identities: the two outputs of the fixed/variable/rating-curve partitions sum identically to the input; scale/delivery-ratio/depth-to-rate/concentration models are exactly the stated monomial with the exact unit factor (mm->m, mg/L->kg/m3); totals equal the sum of their parts; gate/pass-through masks write the input (x factor) exactly on the positive side of their driver test and zero otherwise. (R16.1) every A_TO_B conversion constant equals magnitude(A)/magnitude(B) exactly (rational arithmetic by the type checker) and inverse pairs multiply to 1; (R16.2) constants are used as factors only. (R16.4) for USLE fine sediment, bank erosion, particulate nutrient generation, the two gully models and the demand partition, 15 relations written with OW-SPEC names (totals = sum of parts, delivered load = generated load x delivery ratio, generated fine : (fine + coarse) = the model's fine fraction, dry-weather loads linear with the mg/L->kg/m3 factor, extraction + outflow = input) hold identically on every feasible CFG path through a timestep, with phis resolved by the path and scalar helpers inlined where needed. (R16.5) for 29 driven outputs of those models, on every feasible path that is possible with the driver (flow, sediment supply) at zero the written polynomial vanishes identically, with the gully export function passed as a function value resolved and inlined. NOT decided: non-negativity as such, the gully fine/coarse split (computed behind a function value), clamps that bind. R16.6: the conversion-scale inference of R12.6 over every function of the model packages (consistent application of the named unit factors); the R16.4 table also carries the delivered-load relations of the particulate-nutrient generator.",
   "DESIGN.md section 2, C16",
   "Identity table (model -> expected polynomial) is part of the checker and restates the property; opaque calls (Piecewise, Min/Max) are symbols. SI table of unit words in tool/c16.go.",
   "symbolic polynomial normal forms over go/ssa values + go/types constant evaluation"),
